@@ -829,7 +829,311 @@ theorem linearizable_of_pending (S : LinSys σ) (env : Env) (specs : Nat → σ 
   · obtain ⟨π, -, -, hP⟩ := hpend j _ hfin hj
     exact absurd hP (by simp [Pending])
 
+theorem mapRes_mapRes {α β γ' : Type} (f : α → β) (g : β → γ') (p : Prog α) :
+    (p.mapRes f).mapRes g = p.mapRes (fun a => g (f a)) := by
+  induction p with
+  | done a => rfl
+  | sys c k ih => simp only [mapRes_sys, ih]
+
+/-- Post-composing the answer: pending for `spec` gives pending for the specification with the
+converted answer. -/
+theorem Pending.mapRes {γ' : Type} {S : LinSys σ} {env : Env} {spec : σ → σ × γ}
+    {spec' : σ → σ × γ'} (f : γ → γ') (hs : ∀ a, spec' a = ((spec a).1, f (spec a).2))
+    {p : Prog γ} {π : FS → Prop} (h : Pending S env spec p π) :
+    Pending S env spec' (p.mapRes f) π := by
+  induction p generalizing π with
+  | done a => exact absurd h (by simp [Pending])
+  | sys c k ih =>
+    rw [mapRes_sys, pending_sys]
+    intro s hI hπ
+    obtain ⟨h1, h2, h3⟩ := h s hI hπ
+    refine ⟨h1, h2, ?_⟩
+    rcases h3 with ⟨ha, π', hst, hπ', hP⟩ | ⟨ha, hk⟩
+    · exact Or.inl ⟨ha, π', hst, hπ', ih _ hP⟩
+    · right
+      rw [hs]
+      exact ⟨ha, by rw [hk]; rfl⟩
+
 end Generic
+
+/-! ### the index operations linearize to the abstract map -/
+
+section Index
+open Refine
+
+/-- What every step of an index operation guarantees to the others: directories stay directories,
+regular files stay regular files (their bytes may change). -/
+def Grow (s s' : FS) : Prop :=
+  ∀ p, (s.get p = some .dir → s'.get p = some .dir) ∧
+    (∀ b, s.get p = some (.file b) → ∃ b', s'.get p = some (.file b'))
+
+theorem Grow.refl (s : FS) : Grow s s := fun _ => ⟨fun h => h, fun b h => ⟨b, h⟩⟩
+
+/-- Abstraction = the map a lookup of each key answers (`Refine.absIndex`), invariant = the healthy
+index (`Refine.HealthyIndex`), guarantee = `Grow`. -/
+def idxSys : LinSys AbsIndex :=
+  { abs := absIndex cfg cache, Inv := HealthyIndex cfg cache, G := Grow }
+
+def outIns : Res Integrity → Out
+  | .ok s => .inserted s
+  | .error e => .failed e
+
+def outDel : Res Unit → Out
+  | .ok () => .deleted
+  | .error e => .failed e
+
+def outLook : Res (Option Meta) → Out
+  | .ok m => .found m
+  | .error e => .failed e
+
+/-- An index operation as a process: the library's program, its answer in the common type `Out`. -/
+def opProg : IOp → Prog Out
+  | .ins key o => (insert cfg cache key o).mapRes outIns
+  | .del key => (delete cfg cache key).mapRes outDel
+  | .look key => (find cfg cache key).mapRes outLook
+
+/-- Run alone, `opProg` is `Refine.runOp` (the serial semantics of `Refine.index_refines_map`). -/
+theorem opProg_run (op : IOp) (fs : FS) :
+    runOp cfg cache env op fs = ((run env (opProg cfg cache op) fs).1, (run env (opProg cfg cache op) fs).2.1) := by
+  cases op with
+  | ins key o =>
+    simp only [runOp, opProg, (run_mapRes env outIns _ fs).1, (run_mapRes env outIns _ fs).2]
+    cases (run env (insert cfg cache key o) fs).1 <;> rfl
+  | del key =>
+    simp only [runOp, opProg, (run_mapRes env outDel _ fs).1, (run_mapRes env outDel _ fs).2]
+    cases (run env (delete cfg cache key) fs).1 <;> rfl
+  | look key =>
+    simp only [runOp, opProg, (run_mapRes env outLook _ fs).1, (run_mapRes env outLook _ fs).2]
+    cases (run env (find cfg cache key) fs).1 <;> rfl
+
+theorem absIndex_congr {s s' : FS}
+    (h : ∀ k, s'.get (bucketPath cfg cache k) = s.get (bucketPath cfg cache k)) :
+    absIndex cfg cache s' = absIndex cfg cache s := by
+  funext k
+  unfold absIndex
+  rw [h k]
+
+/-- A lookup is pending for the abstract lookup, knowing nothing. -/
+theorem look_pending (key : Bytes) :
+    Pending (idxSys cfg cache) env (fun m => specStep env m (.look key))
+      (opProg cfg cache (.look key)) (fun _ => True) := by
+  unfold opProg find bucketEntries
+  simp only [Prog.mapRes, bind_eq, pure_eq, call, bind_sys, bind_done, pending_sys]
+  intro s hI _
+  simp only [exec]
+  rcases hI.buckets key with hn | ⟨b, hb, _⟩
+  · rw [readFile_absent (bucket_ne_nil cfg cache key) hn]
+    refine ⟨hI, Grow.refl s, Or.inr ⟨rfl, ?_⟩⟩
+    have ha : absIndex cfg cache s key = none := by unfold absIndex; rw [hn]
+    simp only [specStep, idxSys, ha]
+    rfl
+  · rw [readFile_of_file (bucket_ne_nil cfg cache key) hb]
+    refine ⟨hI, Grow.refl s, Or.inr ⟨rfl, ?_⟩⟩
+    have ha : absIndex cfg cache s key = (codec cfg).find b key := by unfold absIndex; rw [hb]
+    simp only [specStep, idxSys, ha]
+    rfl
+
+/-- `create_dir_all` of a bucket's directory in a healthy index: succeeds, keeps the index
+healthy, only grows, changes no lookup, and the directory exists afterwards. -/
+theorem healthy_mkdirP (key : Bytes) (s : FS) (h : HealthyIndex cfg cache s) :
+    ∃ s1, s.mkdirP (FS.parent (bucketPath cfg cache key)) = .ok s1 ∧ HealthyIndex cfg cache s1 ∧
+      Grow s s1 ∧ absIndex cfg cache s1 = absIndex cfg cache s ∧
+      s1.get (FS.parent (bucketPath cfg cache key)) = some .dir := by
+  obtain ⟨s1, hm, hdir, hframe, hget⟩ := mkdirP_ok s (FS.parent (bucketPath cfg cache key))
+    (parent_ne_nil cfg cache key) (fun q hq hp => h.dirs key q hq hp)
+  have hbk : ∀ k, s1.get (bucketPath cfg cache k) = s.get (bucketPath cfg cache k) :=
+    fun k => hframe _ (Refine.bucket_not_prefix_parent cfg cache key k)
+  refine ⟨s1, hm, ⟨?_, ?_⟩, ?_, absIndex_congr cfg cache hbk, hdir⟩
+  · intro k q hq hpre
+    rcases hget q with h1 | ⟨_, h2⟩
+    · unfold NoneOrDir; rw [h1]; exact h.dirs k q hq hpre
+    · exact Or.inr h2
+  · intro k; rw [hbk k]; exact h.buckets k
+  · intro p
+    rcases hget p with h1 | ⟨h1, _⟩
+    · rw [h1]; exact ⟨fun x => x, fun b x => ⟨b, x⟩⟩
+    · rw [h1]; exact ⟨fun x => (nomatch x), fun _ x => (nomatch x)⟩
+
+/-- Opening a bucket for appending in a healthy index whose bucket directory exists: succeeds,
+keeps the index healthy, only grows, changes no lookup, and the bucket is a regular file
+afterwards. -/
+theorem healthy_openAppend (key : Bytes) (s : FS) (h : HealthyIndex cfg cache s)
+    (hd : s.get (FS.parent (bucketPath cfg cache key)) = some .dir) :
+    (exec env s (.openAppend (bucketPath cfg cache key))).2 = .unit ∧
+    HealthyIndex cfg cache (exec env s (.openAppend (bucketPath cfg cache key))).1 ∧
+    Grow s (exec env s (.openAppend (bucketPath cfg cache key))).1 ∧
+    absIndex cfg cache (exec env s (.openAppend (bucketPath cfg cache key))).1 = absIndex cfg cache s ∧
+    ∃ b, (exec env s (.openAppend (bucketPath cfg cache key))).1.get (bucketPath cfg cache key) =
+      some (.file b) := by
+  rcases h.buckets key with hn | ⟨b, hb, _⟩
+  · have hdir : s.isDir (FS.parent (bucketPath cfg cache key)) = true := isDir_of_get hd
+    simp only [exec, hn, hdir, if_true]
+    refine ⟨trivial, ⟨?_, ?_⟩, ?_, ?_, ⟨[], by simp⟩⟩
+    · intro k q hq hpre
+      have hne : q ≠ bucketPath cfg cache key := by
+        intro e; subst e; exact Refine.bucket_not_prefix_parent cfg cache k key hpre
+      unfold NoneOrDir
+      rw [FS.get_put_ne _ _ hne]
+      exact h.dirs k q hq hpre
+    · intro k
+      by_cases e : bucketPath cfg cache k = bucketPath cfg cache key
+      · rw [e]; exact Or.inr ⟨[], FS.get_put_same _ _ _, (codec_laws cfg).settled_nil⟩
+      · rw [FS.get_put_ne _ _ e]; exact h.buckets k
+    · intro p
+      by_cases e : p = bucketPath cfg cache key
+      · subst e; rw [hn]; exact ⟨fun x => (nomatch x), fun _ x => (nomatch x)⟩
+      · rw [FS.get_put_ne _ _ e]; exact ⟨fun x => x, fun b x => ⟨b, x⟩⟩
+    · funext k
+      unfold absIndex
+      by_cases e : bucketPath cfg cache k = bucketPath cfg cache key
+      · rw [e, hn]; simp; rfl
+      · rw [FS.get_put_ne _ _ e]
+  · simp only [exec, hb]
+    exact ⟨trivial, h, Grow.refl s, trivial, b, rfl⟩
+
+/-- The one `write` of an insertion, on a bucket that is a regular file of a healthy index: the
+index stays healthy, only grows, and the abstract map is updated exactly at the key — the
+linearization point. -/
+theorem healthy_appendWrite (key : Bytes) (o : WriteOpts) (hw : OptsWF key o) (hsri : SriOK cfg o)
+    (s : FS) (h : HealthyIndex cfg cache s) (b : Bytes)
+    (hb : s.get (bucketPath cfg cache key) = some (.file b)) :
+    (∃ n, (exec env s (.appendWrite (bucketPath cfg cache key)
+      ((codec cfg).frame (mkRec key o (stamp env o))))).2 = .nat n) ∧
+    HealthyIndex cfg cache (exec env s (.appendWrite (bucketPath cfg cache key)
+      ((codec cfg).frame (mkRec key o (stamp env o))))).1 ∧
+    Grow s (exec env s (.appendWrite (bucketPath cfg cache key)
+      ((codec cfg).frame (mkRec key o (stamp env o))))).1 ∧
+    absIndex cfg cache (exec env s (.appendWrite (bucketPath cfg cache key)
+      ((codec cfg).frame (mkRec key o (stamp env o))))).1 =
+      fun k => if k = key then insEntry env key o else absIndex cfg cache s k := by
+  have hwf : (mkRec key o (stamp env o)).WF := mkRec_wf key o _ hw (stamp_le env o hw.time)
+  have hset : (codec cfg).Settled b := by
+    rcases h.buckets key with hn | ⟨b', hb', hs'⟩
+    · rw [hn] at hb; cases hb
+    · rw [hb'] at hb; cases hb; exact hs'
+  simp only [exec, hb]
+  refine ⟨⟨_, rfl⟩, ⟨?_, ?_⟩, ?_, ?_⟩
+  · intro k q hq hpre
+    have hne : q ≠ bucketPath cfg cache key := by
+      intro e; subst e; exact Refine.bucket_not_prefix_parent cfg cache k key hpre
+    unfold NoneOrDir
+    rw [FS.get_put_ne _ _ hne]
+    exact h.dirs k q hq hpre
+  · intro k
+    by_cases e : bucketPath cfg cache k = bucketPath cfg cache key
+    · rw [e]; exact Or.inr ⟨_, FS.get_put_same _ _ _, (codec_laws cfg).settled_frame _ _ hwf⟩
+    · rw [FS.get_put_ne _ _ e]; exact h.buckets k
+  · intro p
+    by_cases e : p = bucketPath cfg cache key
+    · subst e; simp [hb]
+    · rw [FS.get_put_ne _ _ e]; exact ⟨fun x => x, fun b x => ⟨b, x⟩⟩
+  · funext k
+    by_cases e : bucketPath cfg cache k = bucketPath cfg cache key
+    · have h1 : absIndex cfg cache (s.put (bucketPath cfg cache key)
+          (.file (b ++ (codec cfg).frame (mkRec key o (stamp env o))))) k =
+          (codec cfg).find (b ++ (codec cfg).frame (mkRec key o (stamp env o))) k := by
+        unfold absIndex; rw [e]; simp
+      have h2 : absIndex cfg cache s k = (codec cfg).find b k := by
+        unfold absIndex; rw [e, hb]
+      rw [h1, find_append_frame cfg _ hset _ hwf, findStep_mkRec cfg key o _ hsri, ← h2]
+      rfl
+    · have hk : k ≠ key := fun x => e (by rw [x])
+      rw [if_neg hk]
+      unfold absIndex
+      rw [FS.get_put_ne _ _ e]
+
+/-- An insertion (well-formed options, integrity absent or computed by the library) is pending
+for the abstract map update, knowing nothing; its linearization point is its one `write`. -/
+theorem ins_pending (key : Bytes) (o : WriteOpts) (hw : OptsWF key o) (hsri : SriOK cfg o) :
+    Pending (idxSys cfg cache) env (fun m => specStep env m (.ins key o))
+      (opProg cfg cache (.ins key o)) (fun _ => True) := by
+  have tail : Pending (idxSys cfg cache) env (fun m => specStep env m (.ins key o))
+      ((Prog.bind (appendRec cfg (bucketPath cfg cache key) (mkRec key o (stamp env o))) (fun a =>
+          match a with
+          | Except.error e => .done (Except.error e)
+          | Except.ok () => .done (Except.ok (o.sri.getD defaultSri)))).mapRes outIns)
+      (fun s => s.get (FS.parent (bucketPath cfg cache key)) = some .dir) := by
+    unfold appendRec
+    simp only [bind_eq, pure_eq, call, bind_sys, bind_done, mapRes_sys, pending_sys]
+    intro s hI hd
+    obtain ⟨hr, hI2, hG, habs, b, hb⟩ := healthy_openAppend cfg env cache key s hI hd
+    refine ⟨hI2, hG, Or.inl ⟨habs, fun s => ∃ b, s.get (bucketPath cfg cache key) = some (.file b),
+      ?_, ⟨b, hb⟩, ?_⟩⟩
+    · rintro a b' ⟨x, hx⟩ hg
+      exact (hg _).2 x hx
+    · rw [hr]
+      simp only [bind_sys, mapRes_sys, pending_sys]
+      intro s' hI' hb'
+      obtain ⟨b', hb'⟩ := hb'
+      obtain ⟨⟨n, hn⟩, hI3, hG3, habs3⟩ := healthy_appendWrite cfg env cache key o hw hsri s' hI' b' hb'
+      refine ⟨hI3, hG3, Or.inr ⟨habs3, ?_⟩⟩
+      rw [hn]
+      rfl
+  unfold opProg insert getTime
+  simp only [bind_eq, pure_eq, call, bind_sys, bind_done, mapRes_sys, pending_sys]
+  intro s hI _
+  obtain ⟨s1, hm, hI1, hG1, habs1, hd1⟩ := healthy_mkdirP cfg cache key s hI
+  simp only [exec, hm]
+  refine ⟨hI1, hG1, Or.inl ⟨habs1, fun s => s.get (FS.parent (bucketPath cfg cache key)) = some .dir,
+    ?_, hd1, ?_⟩⟩
+  · intro a b ha hg
+    exact (hg _).1 ha
+  · cases ht : o.time with
+    | some t =>
+      have hst : stamp env o = t := by simp [stamp, ht]
+      rw [hst] at tail
+      simp only [bind_done]
+      exact tail
+    | none =>
+      have hst : stamp env o = env.clock % (timeMax + 1) := by simp [stamp, ht]
+      rw [hst] at tail
+      simp only [bind_sys, mapRes_sys, pending_sys]
+      intro s2 hI2 hd2
+      simp only [exec]
+      refine ⟨hI2, Grow.refl s2, Or.inl ⟨trivial,
+        fun s => s.get (FS.parent (bucketPath cfg cache key)) = some .dir, ?_, hd2, ?_⟩⟩
+      · intro a b ha hg
+        exact (hg _).1 ha
+      · simp only [bind_done]
+        exact tail
+
+theorem delete_eq_mapRes (key : Bytes) :
+    delete cfg cache key = (insert cfg cache key {}).mapRes
+      (fun a => match a with | .ok _ => .ok () | .error e => .error e) := by
+  unfold delete Prog.mapRes
+  simp only [bind_eq, pure_eq]
+  congr 1
+  funext a
+  cases a <;> rfl
+
+/-- A removal (valid UTF-8 key) is pending for the abstract removal. -/
+theorem del_pending (key : Bytes) (hk : Json.utf8Valid key = true) :
+    Pending (idxSys cfg cache) env (fun m => specStep env m (.del key))
+      (opProg cfg cache (.del key)) (fun _ => True) := by
+  have h := ins_pending cfg env cache key {} (optsWF_default hk) (sriOK_default cfg)
+  have h2 := Pending.mapRes (spec' := fun m => specStep env m (.del key))
+    (fun out : Out => match out with | .inserted _ => Out.deleted | x => x) (fun a => rfl) h
+  have e : (opProg cfg cache (.ins key {})).mapRes
+      (fun out : Out => match out with | .inserted _ => Out.deleted | x => x) =
+      opProg cfg cache (.del key) := by
+    show ((insert cfg cache key {}).mapRes outIns).mapRes _ = (delete cfg cache key).mapRes outDel
+    rw [delete_eq_mapRes, mapRes_mapRes, mapRes_mapRes]
+    congr 1
+    funext a
+    cases a <;> rfl
+  rw [e] at h2
+  exact h2
+
+/-- Every well-formed index operation is pending for its abstract counterpart. -/
+theorem op_pending (op : IOp) (hop : OpWF cfg op) :
+    Pending (idxSys cfg cache) env (fun m => specStep env m op) (opProg cfg cache op)
+      (fun _ => True) := by
+  cases op with
+  | ins key o => exact ins_pending cfg env cache key o hop.1 hop.2
+  | del key => exact del_pending cfg env cache key hop
+  | look key => exact look_pending cfg env cache key
+
+end Index
 
 /-! ### non-vacuity -/
 
